@@ -7,9 +7,9 @@ import (
 	"go/token"
 	"go/types"
 	"os"
-	"sync/atomic"
 	"sort"
 	"strings"
+	"sync/atomic"
 	"time"
 
 	"golang.org/x/tools/go/ssa"
@@ -62,49 +62,49 @@ type ObsValue struct {
 }
 
 type HarnessReport struct {
-	Name          string
-	Pkg           string
-	Paths         int
-	Steps         int
-	Obligations   int
-	Discharged    int
-	Violations    []Violation
-	Unsupported   map[string]int
-	Unknowns      int
-	UnwindHits    int
-	Reach         map[string]int
-	AssertIDs     map[string]int
-	Notes         map[string]int
-	Funcs         map[string]bool
-	Intrinsics    map[string]int
-	Samples       []PathSample
-	Wall          time.Duration
-	SolverStats   SolverStats
-	PathBudgetHit bool
+	Name            string
+	Pkg             string
+	Paths           int
+	Steps           int
+	Obligations     int
+	Discharged      int
+	Violations      []Violation
+	Unsupported     map[string]int
+	Unknowns        int
+	UnwindHits      int
+	Reach           map[string]int
+	AssertIDs       map[string]int
+	Notes           map[string]int
+	Funcs           map[string]bool
+	Intrinsics      map[string]int
+	Samples         []PathSample
+	Wall            time.Duration
+	SolverStats     SolverStats
+	PathBudgetHit   bool
 	InfeasiblePaths int
 	ModelQueries    int
-	Merged        int
-	Bounds        map[string]int
-	Assumes       map[string]int
+	Merged          int
+	Bounds          map[string]int
+	Assumes         map[string]int
 }
 
 type Engine struct {
-	tm       *TermManager
-	solver   *Solver
-	asserted []*PC
-	prog     *ssa.Program
-	ld       *Loaded
-	cfg      Config
-	arrCache map[arrReadKey]*Term
-	nextObj  int
-	nextOpq  int
-	fnInfos  map[*ssa.Function]*fnInfo
-	globals  map[*ssa.Global]*Object
-	rep      *HarnessReport
-	violSeen map[string]int
-	depth    int
-	noMerge  map[*ssa.Function]bool
-	sentinel map[string]*OpaqueV
+	tm                  *TermManager
+	solver              *Solver
+	asserted            []*PC
+	prog                *ssa.Program
+	ld                  *Loaded
+	cfg                 Config
+	arrCache            map[arrReadKey]*Term
+	nextObj             int
+	nextOpq             int
+	fnInfos             map[*ssa.Function]*fnInfo
+	globals             map[*ssa.Global]*Object
+	rep                 *HarnessReport
+	violSeen            map[string]int
+	depth               int
+	noMerge             map[*ssa.Function]bool
+	sentinel            map[string]*OpaqueV
 	panicsAreViolations bool
 	strictSlice         bool
 	sampleEvery         int
